@@ -65,6 +65,11 @@ CLAIMS = {
    text="For every corpus file: to_bytes(from_bytes(b)) = b and the decoded header, constants and instructions equal what the compiler holds; every truncation, every single-bit flip and bursts up to 32 bits must be rejected; hostile header fields, hostile words over every body byte, splices and random byte strings (checksum recomputed) must neither panic, abort, exceed the allocation bound nor hang the loader, the constant decoder or the re-encoder.",
    note="Bound: largest single request <= 64 MiB + 64 x file length; the monitor refuses requests above 1 GiB so they are observed as aborts. Hangs surface through the watchdog as inconclusive (never a verdict by wall-clock).",
    ref="6/C07"),
+ "C19": dict(
+   technique="runtime monitoring: snapshot comparison across independent interpreters, across step(0,n) vs n single steps, and across separate worker processes (digest of all snapshots per program compared by the driver); invariance monitor for assignment-free programs",
+   text="Each generated program is interpreted and its plan re-run for n in {1,2,3,7} steps in fresh interpreters; snapshots of all variables must agree between two interpreters, between one n-step request and n single steps, and (through digests) between 3 (quick) / 8 (thorough) separate processes with different hash seeds; programs without assignment statements must keep every variable exactly as the first evaluation left it.",
+   note="Panics escaping step() are caught and reported; the digest covers the snapshot after interpret and after every step count.",
+   ref="6/C19"),
 }
 NOT_YET = "not claimed yet: the monitor for this property is still being built in this session (see DESIGN.md section 6 for the planned check)"
 
